@@ -57,7 +57,7 @@ CHECKS = {
 
 # what was added after the first version of each check (kept separate so the original texts stay readable)
 SUFFIX = {
- "C05": " Also repeated in a build with -C target-cpu=native; one run in four uses trait-qualified (generic) call sites; giant requests (2^31 / 2^32 + k bytes into an aliased 4 GiB window); other-targets pass: Miri interprets a history program for s390x (big-endian), i686 (32-bit), aarch64 and (thorough) mips, digests must equal the host's; word hunts (2^28 HC-128 / ISAAC words searched for zero, all-ones and repeated words, short calls made right there).",
+ "C05": " Also repeated in a build with -C target-cpu=native; one run in four uses trait-qualified (generic) call sites; giant requests (2^31 / 2^32 + k bytes into an aliased 4 GiB window); other-targets pass: Miri interprets a history program for s390x (big-endian), i686 (32-bit), aarch64 and (thorough) mips, x86_64-windows, aarch64-macOS, digests must equal the host's; word hunts (2^28 HC-128 / ISAAC words searched for zero, all-ones and repeated words, short calls made right there).",
  "C08": " Repeated in a build with --cfg fuzzing; runs are also executed on fresh threads and once more from a thread-local destructor while the thread exits.",
  "C09": " Repeated in a build with --cfg fuzzing; zero-sized source error types, long zero-block runs.",
  "C10": " == is probed per type and also evaluated on copies at different addresses/alignments; != next to ==; skew pairs that hand out the same number of bytes through different numbers of words.",
